@@ -77,6 +77,22 @@ def mint(d):
                 sh(OPENSSL, "x509", "-req", "-in", name + ".csr", "-CA", f"ca{issuer}.pem", "-CAkey", f"ca{issuer}.key", "-CAcreateserial",
                    "-out", name + ".pem", "-days", "3", "-extfile", ext, cwd=d)
             P[name] = (os.path.join(d, name + ".pem"), os.path.join(d, name + ".key"))
+    # a third CA that no trust option of any case names, a server certificate issued by it, and a client certificate bundle (client
+    # leaf + that CA's certificate + key in one PEM file, as handed out by corporate PKIs) for sslopt["certfile"]
+    sh(OPENSSL, "req", "-x509", "-newkey", "rsa:2048", "-nodes", "-keyout", "caC.key", "-out", "caC.pem", "-days", "3",
+       "-subj", "/CN=wsverif test CA C", "-addext", "basicConstraints=critical,CA:TRUE", "-addext", "keyUsage=critical,keyCertSign,cRLSign", cwd=d)
+    for name, san, eku in (("leaf-C-local", "DNS:localhost,IP:127.0.0.1", "serverAuth"), ("client-C", "DNS:client.test", "clientAuth")):
+        ext = os.path.join(d, name + ".ext")
+        with open(ext, "w") as f:
+            f.write(f"subjectAltName={san}\nbasicConstraints=CA:FALSE\nkeyUsage=digitalSignature,keyEncipherment\nextendedKeyUsage={eku}\n")
+        sh(OPENSSL, "req", "-newkey", "rsa:2048", "-nodes", "-keyout", name + ".key", "-out", name + ".csr", "-subj", f"/CN={name}", cwd=d)
+        sh(OPENSSL, "x509", "-req", "-in", name + ".csr", "-CA", "caC.pem", "-CAkey", "caC.key", "-CAcreateserial", "-out", name + ".pem", "-days", "3", "-extfile", ext, cwd=d)
+        P[name] = (os.path.join(d, name + ".pem"), os.path.join(d, name + ".key"))
+    bundle = os.path.join(d, "client-bundle.pem")
+    with open(bundle, "w") as f:
+        for part in ("client-C.pem", "caC.pem", "client-C.key"):
+            f.write(open(os.path.join(d, part)).read())
+    P["client_bundle"] = bundle
     return P
 
 
@@ -349,6 +365,8 @@ def run(res, tier, seed, shard, nshards):
         if shard == 1 % nshards:
             scheme_case_cases(res, W, servers)
             reuse_cases(res, W, P, servers)
+        if shard == 2 % nshards:
+            client_cert_cases(res, W, P, servers, proxy)
         # ws:// is never wrapped
         if shard == 0:
             for route in ROUTE:
@@ -530,6 +548,50 @@ def tls_case(res, W, P, servers, proxy, cert_reqs, check_host, trust, sni, cert,
         res.sample(case, cap=2)
     elif not exp:
         res.sample(case, cap=4)
+
+
+def client_cert_cases(res, W, P, servers, proxy):
+    """sslopt["certfile"] names the client's own certificate (here a bundle that also contains the issuing CA): it identifies the client;
+    it is not among the options that say whom to trust.  A server whose chain ends in that CA - which no CA option names - is refused
+    like any other unknown issuer; a server with a trusted chain is accepted with the client certificate configured."""
+    srvC = Server(P["leaf-C-local"])
+    srvC.start()
+    try:
+        for route in ROUTE:
+            for extra, srv, must_accept in (({}, srvC, False), ({"ca_certs": P["caA"]}, srvC, False), ({"ca_certs": P["caA"]}, servers["leaf-A-local"], True),
+                                            ({"ca_certs": P["caA"], "cert_reqs": ssl.CERT_OPTIONAL}, srvC, False)):
+                H.scrub_env()
+                while not srv.records.empty():
+                    srv.records.get()
+                sslopt = dict(extra, certfile=P["client_bundle"])
+                kw = dict(http_proxy_host="127.0.0.1", http_proxy_port=proxy.port) if route == "proxy" else {}
+                exc = None
+                try:
+                    w = W.create_connection(f"wss://localhost:{srv.port}/c11", timeout=5, sslopt=sslopt, **kw)
+                    w.shutdown()
+                except Exception as e:  # noqa
+                    exc = e
+                try:
+                    rec = srv.records.get(timeout=8 if exc is None else 2)
+                except queue.Empty:
+                    rec = None
+                case = {"gen": "client-certificate-bundle", "route": route, "trust_options": sorted(extra), "server_issuer": "C" if srv is srvC else "A"}
+                res.case(("client-cert", route, tuple(sorted(extra)), srv is srvC), nontrivial=True)
+                res.count("client_certificate_cases")
+                if isinstance(exc, (TimeoutError, socket.timeout, W.WebSocketTimeoutException)):
+                    res.count("client_certificate_cases_skipped_after_wall_clock_timeout")
+                    continue
+                if must_accept and exc is not None:
+                    res.violation("valid-peer-rejected", f"{case}: {type(exc).__name__}: {str(exc)[:160]}", case, route=route, exc_type=type(exc).__name__)
+                elif not must_accept and exc is None:
+                    res.violation("unauthenticated-peer-accepted", f"{case}: connect() succeeded although the server's chain ends in a CA that only the client's own certificate "
+                                  f"bundle (sslopt certfile) contains", case, route=route, which="chain", default_options=not extra)
+                elif not must_accept and rec is not None and rec.get("app"):
+                    res.violation("application-data-before-rejection", f"{case}: rejected, but the server decrypted {len(rec['app'])} application bytes", case, route=route)
+    finally:
+        srvC.shutdown()
+        os.environ.pop("SSL_CERT_FILE", None)
+        H.scrub_env()
 
 
 def plain_case(res, W, plain, proxy, route, sslopt):
